@@ -239,6 +239,24 @@ def dims_for(cls: str) -> dict[str, list]:
 RESPONSE_DIMS = {"socc", "abeacon", "chal", "dacuuid", "dacver", "dacsocc", "darpath", "srkidx"}
 
 
+# quick tier, class keys other than the first of a device kind: the dimensions the database flags can meet
+QUICK_OTHER_DIMS = RESPONSE_DIMS - {"darpath"}
+# dimensions whose handling depends on the key material (type, size, file form): all values on every class; of the other
+# ("value") dimensions the RSA-4096 classes - 8 private-key loads of 0.1 s per case - take the first departure in quick
+STRUCT_DIMS = {"rot", "keyset", "dck", "signer", "keyform", "darpath", "skey", "srkidx", "ca"}
+
+
+def quick_keep(cls: str, dep: dict, first: bool) -> bool:
+    if not dep:
+        return True
+    (dim, idx), = dep.items()
+    if not first and dim not in QUICK_OTHER_DIMS:
+        return False
+    if CLASSES[cls]["pool"] == "rsa4096" and dim not in STRUCT_DIMS and idx != 1:
+        return False
+    return True
+
+
 def lattice(cls: str, k: int) -> list[dict]:
     """All assignments with <= k non-base dimensions, as {dim: index} of the departures, simplest first."""
     dims = dims_for(cls)
@@ -1697,7 +1715,7 @@ def build_cases(tier: str, seed: int, ftab: list[dict], cli: bool) -> tuple[list
             kk = k if first else 1
             for cls in classes_for(fam):
                 for dep in lattice(cls, kk):
-                    if quick and not first and dep and not set(dep) <= RESPONSE_DIMS:
+                    if quick and not quick_keep(cls, dep, first):
                         continue
                     lat.append({"g": "lat", "cls": cls, "fam": fkey(fam), "dep": dep, "seed": seed})
         kinds_done.add(kind)
@@ -1740,6 +1758,8 @@ def build_cases(tier: str, seed: int, ftab: list[dict], cli: bool) -> tuple[list
                     nkeys = dims["rot"][ri][0]
                     if (dims["keyset"][ks] == "dup-two-slots" and nkeys < 3) or (dims["keyset"][ks] == "all-same" and nkeys < 2):
                         continue  # the list is the standard one
+                    if quick and CLASSES[cls]["pool"] == "rsa4096" and (dims["keyset"][ks] == "alt" or (ks >= 2 and nkeys < 4)):
+                        continue  # RSA-4096 (slow key loads): standard order everywhere, repeated keys in full tables only
                     for ca in range(len(dims.get("ca", [0]))):
                         dep = {a: b for a, b in (("rot", ri), ("keyset", ks), ("ca", ca)) if b}
                         cases.append({"g": "rot", "cls": cls, "fam": fkey(fams[0]), "dep": dep, "seed": seed, "rotsel": f"{ri}/{ks}/{ca}"})
